@@ -39,6 +39,9 @@ type Target struct {
 	// BarrierView, when set, builds internal/vault/barrier.NewView(storage, prefix) (root module only); it is driven as
 	// layer kind "bview" (same contract as logical.StorageView, which it wraps).
 	BarrierView func(s logical.Storage, prefix string) logical.Storage
+	// Implicit: layers that are always at the bottom of the stack of this target (e.g. the barrier view through which the
+	// storage barrier is reached); when they end in a logical view only logical views are generated above them
+	Implicit []Layer
 	// KeySizeBoundary makes one case put keys of bottom length MaxKeySize-1, MaxKeySize and MaxKeySize+1 (bbolt: 32768)
 	KeySizeBoundary bool
 }
@@ -908,6 +911,15 @@ func RunCase(out *vh.Out, rng *vh.Rand, tgt Target, big bool) {
 	}
 	g.odd = []int{0, 0, 4, 10, 25}[rng.Intn(5)]
 	layers := genLayers(g, tgt.Kind)
+	if len(tgt.Implicit) > 0 {
+		var up []Layer
+		for _, l := range layers {
+			if l.Kind == "lview" || l.Kind == "bview" {
+				up = append(up, l)
+			}
+		}
+		layers = append(append([]Layer{}, tgt.Implicit...), up...)
+	}
 	full := ""
 	hasCache := false // writes below a cache bypass it by construction: raw writes then happen only before the first top-level op
 	for _, l := range layers {
